@@ -354,7 +354,99 @@ def sigs(cid, seed, with_java, entry):
   return r
 
 
-CASES = {'tiny': case_tiny, 'ec': case_ec, 'sigs': case_sigs}
+# ---- the guess-verification seam (_IssuerDLogs) ------------------------------------------------
+
+def case_issuer_dlogs(curve, length, pos):
+  """`length` distinct private-key guesses, the true keys of two issuers at positions `pos`
+  and (7*pos+3) mod length: every recorded value must be the key of the issuer of that
+  signature index, and every index of a correctly guessed issuer must be recorded."""
+  w = world.load()
+  c = _from_spec(curve)
+  L = rec.to_lib(c, w.ec_util)
+  base = 1 + (pos * 31) % 1000
+  guesses = [base + j for j in range(length)]
+  d1 = guesses[pos]
+  pos2 = (7 * pos + 3) % length
+  d2 = guesses[pos2]
+  absent = base + length + 5
+  pks = {rec.lp(c.mul(c.g, d1)): [0, 2, 5]}
+  if pos2 != pos:
+    pks[rec.lp(c.mul(c.g, d2))] = [1, 4]
+  pks[rec.lp(c.mul(c.g, absent))] = [3]
+  st, got = guarded(w.ecdsa_sig_checks._IssuerDLogs, list(guesses), pks, L)  # pylint: disable=protected-access
+  if st == 'exc':
+    return ['_IssuerDLogs(%d guesses) raised %s' % (length, got)]
+  exp = {0: d1, 2: d1, 5: d1}
+  if pos2 != pos:
+    exp.update({1: d2, 4: d2})
+  if got != exp:
+    wrong = sorted((i, v) for i, v in got.items() if exp.get(i) != v)
+    return ['_IssuerDLogs with %d guesses, true keys at positions %d and %d: recorded %s, but '
+            'only %s are true (value*G == issuer key)' %
+            (length, pos, pos2, dict(wrong[:3]) or got, exp)]
+  return []
+
+
+def issuer_dlogs(curve, lengths):
+  r = Result()
+  for ln in lengths:
+    for pos in range(ln):
+      bad = case_issuer_dlogs(curve, ln, pos)
+      r.ev('issuer-dlogs/%s' % ('<=512' if ln <= 512 else '>512'), True)
+      r.transitions += 1
+      for b in bad[:1]:
+        r.violation(b, {'fn': 'issuer_dlogs', 'args': {'curve': curve, 'length': ln, 'pos': pos}})
+      if len(r.violations) > 5:
+        return r
+  r.states += len(lengths)
+  r.sample({'guess_list_lengths': lengths[:6] + (['...'] if len(lengths) > 6 else []),
+            'true_key_position': 'every position'})
+  return r
+
+
+def _many_issuer_batch(seed, per_issuer=20):
+  """9 issuers on secp256r1 x 20 signatures, interleaved: three use GMP's LCG (64/128/200-bit
+  state), six use random nonces - enough signature sets for > 512 private-key guesses in one
+  call of the GMP check."""
+  cid = 2
+  n = G.curve(cid).n
+  per = []
+  for j, m2 in enumerate((64, 128, 200)):
+    d = G.rand_scalar('c02-mi-g%d-%d' % (j, seed), n)
+    per.append(G.signatures(cid, d, G.gmp_nonces(m2, cid, per_issuer, skip=3 * j + seed % 5),
+                            'mi-g%d' % j))
+  for j in range(6):
+    d = G.rand_scalar('c02-mi-r%d-%d' % (j, seed), n)
+    per.append(G.signatures(cid, d, G.nonces('random', cid, 0, per_issuer,
+                                             'c02-mi-rk%d-%d' % (j, seed)), 'mi-r%d' % j))
+  order = [3, 0, 4, 5, 1, 6, 7, 2, 8]
+  return [per[i][k] for k in range(per_issuer) for i in order]
+
+
+def case_many_issuers(seed):
+  w = world.load()
+  sigs = _many_issuer_batch(seed)
+  st, ret = guarded(w.ecdsa_sig_checks.CheckLCGNonceGMP().Check, sigs)
+  if st == 'exc':
+    return ['CheckLCGNonceGMP on 9 issuers x 20 signatures raised %s' % ret], 0
+  flagged = sum(1 for s in sigs if s.test_info.weak)
+  return _verify_sigs(2, sigs, NONCE_CHECKS, 'CheckLCGNonceGMP on 9 issuers x 20 signatures '
+                      '(secp256r1, seed %d)' % seed), flagged
+
+
+def many_issuers(seed):
+  r = Result()
+  bad, flagged = case_many_issuers(seed)
+  r.ev('sig/many-issuers/flagged=%d' % flagged, flagged > 0)
+  r.transitions += 1
+  for b in bad[:2]:
+    r.violation(b, {'fn': 'many_issuers', 'args': {'seed': seed}})
+  r.sample({'issuers': 9, 'signatures_per_issuer': 20, 'gmp_lcg_issuers': 3, 'flagged': flagged})
+  return r
+
+
+CASES = {'tiny': case_tiny, 'ec': case_ec, 'sigs': case_sigs, 'issuer_dlogs': case_issuer_dlogs,
+         'many_issuers': lambda seed: case_many_issuers(seed)[0]}
 
 
 def plan(tier, seed):
@@ -376,6 +468,19 @@ def plan(tier, seed):
                     'group x bounds 0..11, n/2, n-1, n, n+1, 2n, 3n+1 (wrap-around) for BatchDL and '
                     'BatchDLOfDifferences (3 history-list variants)',
                     weight=len(c.points())**ml * 400 / nparts))
+  big = rec.tiny_curves(65000, 66000, 'generic', 1, 1, off)[0]
+  edges = [127, 128, 129, 255, 256, 257, 511, 512, 513, 767, 768, 769, 1023, 1024, 1025]
+  if thorough:
+    edges += [1535, 1536, 1537, 2047, 2048, 2049, 4095, 4096, 4097]
+  groups = [list(range(1, 65))] + [edges[i:i + 3] for i in range(0, len(edges), 3)]
+  for lens in groups:
+    T.append(Task('guess-verification', 'issuer_dlogs', {'curve': _spec(big), 'lengths': lens},
+                  bound='_IssuerDLogs on a 16-bit curve: every guess-list length 1..64 and around '
+                  'every multiple of 256 up to 1025 (4097 thorough) x every position of the true '
+                  'key (two issuers + one issuer without a correct guess)',
+                  weight=sum(lens) * max(lens) * 10))
+  T.append(Task('named-signature-sets', 'many_issuers', {'seed': seed}, complete=False,
+                bound='', weight=5e9))
   w = world.load()
   ids = [int(cid) for cid, L in w.ec_util.CURVE_FACTORY.items() if L is not None]
   quick_ids = [ids[seed % len(ids)], ids[(seed + 4) % len(ids)], 5]
